@@ -22,7 +22,15 @@ _TRUSTED_BASE = list(TRUSTED)
 
 
 def regenerate():
-    """re-translate the kernel loops of biom/_filter.pyx into coq/Gen/FilterGen.v (rebuild_body, remove_rows)"""
+    """re-translate the kernel loops of biom/_filter.pyx into coq/Gen/FilterGen.v (rebuild_body, remove_rows), then the
+    Python-level wrappers (_filter, Table.filter / remove_empty / head) into coq/Gen/FilterWrapGen.v (tools/py2v_filt)"""
+    _regenerate_kernel()
+    from . import regen_filt as _regen_filt
+    _regen_filt.hook(TRUSTED, ['filterwrap'], 'coq/Model/Filter.v', 'coq/Proofs/GenBridgeFilterWrapProofs.v',
+                     keep_existing=True)()
+
+
+def _regenerate_kernel():
     import os
     import re
     from . import core
